@@ -301,6 +301,8 @@ def frame_goals(I, fs, heap0, heap1):
     for (dn, mn, dt), locs in fs.dicts.items():
         dictfields.setdefault(dn, []).extend(locs)
         dictfields.setdefault(mn, []).extend(locs)
+    if "*" in fs.ghost:
+        return goals
     for name, final in heap1.cur.items():
         if name == "alive":
             continue
@@ -568,6 +570,9 @@ def apply_contract(I, ct, f, args, kwargs, fr, node):
             c.assume(eval_bool(I, cl.text, env2, post, pre))
         if c.solver.check() == z3.unsat:
             raise Infeasible()
+        hook = getattr(I, "ghost_after", {}).get(ct.qualname)
+        if hook is not None:
+            hook(I, fr)  # sidecar ghost statement attached to this call site of the unit under verification
         if ct.wf:
             c.wf_snaps.append(c.heap.snapshot())
         return res
